@@ -29,6 +29,14 @@ class StepLimit(Exception):
     pass
 
 
+class Num(int):
+    """an integer as a user gets it from a configuration reader or a numeric library: EQUAL to the plain int,
+    hashable like it, but never the same object as the interpreter's cached small ints or as the number stored
+    elsewhere (arithmetic on it yields plain ints again).  A correct library compares numbers by value, never by
+    identity or exact type."""
+    __slots__ = ()
+
+
 def weight_of(seed, wmod, t, asset, act, prio):
     if wmod == 0:
         return 0
@@ -62,7 +70,7 @@ _orig_step = Environment.step
 def _event_init(self, time, asset_id, action, event_type, message=''):
     _orig_event_init(self, time, asset_id, action, event_type, message)
     r = CTX
-    if r is None or not r.keyed_weights:
+    if r is None or not r.keyed_weights or r.in_bystander:
         return
     try:
         t = time * TICK
@@ -113,9 +121,55 @@ def _run(self, simulation_duration, trace=False):
     return _orig_run(self, simulation_duration, trace)
 
 
+# ---- bystander environments ------------------------------------------------------------------------------------
+# Other Environment objects live next to the one under test (a second model in the same process, a copy kept for
+# comparison).  Whenever the environment under test pauses, resumes or cancels the events of an asset, the SAME
+# operation with an EQUAL id is first performed on every bystander (each holds events of its own for that id), and
+# after a pause one more bystander is constructed.  None of this may be visible in the environment under test:
+# instances share no state.  (Nothing is printed; a library that shares state shows a different event stream.)
+_orig_pause = Environment.pause_matching_events
+_orig_unpause = Environment.unpause_matching_events
+_orig_cancel = Environment.cancel_matching_events
+
+
+def _nothing():
+    pass
+
+
+def _bystander_op(orig, after_pause=False):
+    @functools.wraps(orig)
+    def f(self, asset_id=None):
+        r = CTX
+        if r is None or self is not getattr(r, 'env', None) or r.in_bystander or asset_id is None \
+                or not isinstance(asset_id, int):
+            return orig(self, asset_id)
+        r.in_bystander = True
+        try:
+            for b in r.bystanders:
+                if after_pause:
+                    b.schedule_event(b.now + 1, Num(asset_id), _nothing)
+                orig(b, Num(asset_id))
+        except Exception as e:  # pragma: no cover
+            r.out.append(f'harness-error bystander {type(e).__name__} {e}')
+        finally:
+            r.in_bystander = False
+        res = orig(self, asset_id)
+        if after_pause:
+            r.in_bystander = True
+            try:
+                r.bystanders = r.bystanders[-2:] + [Environment()]
+            finally:
+                r.in_bystander = False
+        return res
+    return f
+
+
 Event.__init__ = _event_init
 Environment.step = _step
 Environment.run = _run
+Environment.pause_matching_events = _bystander_op(_orig_pause, after_pause=True)
+Environment.unpause_matching_events = _bystander_op(_orig_unpause)
+Environment.cancel_matching_events = _bystander_op(_orig_cancel)
 # ReservedResources.__del__ prints and dereferences a possibly missing env: silence it.
 resource_manager.ReservedResources.__del__ = lambda self: None
 
@@ -138,6 +192,7 @@ class Runner:
     def __init__(self, keyed_weights=True):
         self.keyed_weights = keyed_weights
         self.out = []
+        self.scen_no = 0
         self.reset()
 
     # ---- scenario state -------------------------------------------------------------------
@@ -149,12 +204,26 @@ class Runner:
         self.results = []
         self.steps = 0
         self.aborted = False
-        self.system = System()
+        self.system = self.make_system()
         self.env = self.system.env
+        self.in_bystander = True
+        self.bystanders = [Environment('bystander')]
+        self.in_bystander = False
         self.id2idx = {}
         self.eids = {}
         self.keep = []
         self.lastline = {}
+        self._numc = 0
+
+    def N(self, v):
+        """integer PARAMETER or asset id handed to the library: two out of three are fresh `Num` instances (see
+        there); nothing of this shows in the observation stream of a correct library"""
+        v = int(v)
+        self._numc += 1
+        return v if self._numc % 3 == 0 else Num(v)
+
+    def make_system(self):
+        return System()
 
     # ---- canonicalisation -----------------------------------------------------------------
     def canon_asset(self, asset_id):
@@ -163,7 +232,9 @@ class Runner:
         return asset_id
 
     def real_asset(self, a):
-        return a
+        # the id given to schedule / pause / unpause / cancel is equal to, but mostly not the same object as,
+        # the id stored in the events it has to match
+        return self.N(a)
 
     def act_code(self, action):
         if isinstance(action, ScriptAction):
@@ -270,6 +341,10 @@ class Runner:
         CTX = self
         k = toks[0]
         if k == 'scenario':
+            try:
+                self.scen_no = int(toks[1])
+            except (IndexError, ValueError):
+                self.scen_no = 0
             self.reset()
             self.out.append(f'scenario {toks[1]}')
         elif k == 'seed':
